@@ -495,6 +495,14 @@ def oracle_cross(case, rec):
     if okc:
         rec.close(v, CR.sum() / float(n * m), "cross_recurrence_rate_value",
                   rtol=1e-12)
+    # balance: (recurrences above - below the main diagonal) / their sum
+    up = float(sum(CR[i, j] for i in range(n) for j in range(m) if j > i))
+    lo = float(sum(CR[i, j] for i in range(n) for j in range(m) if j < i))
+    if up + lo > 0:
+        okb, bal = rec.call("cross_balance", cr.balance)
+        if okb:
+            rec.close(bal, (up - lo) / (up + lo), "cross_balance_value",
+                      rtol=1e-12)
     check_rqa(rec, cr, "cross", case.get("lmin", 2),
               case.get("seeds") or [1, 2], cross=True)
     # leave the mode and come back with the same value: the matrix verified
